@@ -641,7 +641,8 @@ int sgetbs(STREAM* f, char* str, int size)
 		/* LCOV_EXCL_STOP */
 	}
 
-	if (len + 1 > (uint32_t)size) {
+	/* note that "len + 1" could overflow if len is the max value */
+	if (len >= (uint32_t)size) {
 		/* LCOV_EXCL_START */
 		return -1;
 		/* LCOV_EXCL_STOP */
